@@ -16,6 +16,7 @@ import math
 import queue as _queue
 import sys
 import threading
+import mmap as _mmap
 import types
 import multiprocessing.process as _mpp
 
@@ -212,6 +213,8 @@ class World:
         self.prim_access = {}
         self.reflists = {}  # id(real list mutated by encoded code) -> {"name", "list", "cands"}
         self.publication_functions = set()  # writes inside these functions happen before the target object is started
+        self.fork_functions = set()  # harness functions that copy a parent's object state into a child's object BEFORE the child starts
+        self.files = {}  # path -> prims.SimFile (builtin open())
         self.changed = False
         self.pass_no = 0
         self.thread_of_obj = {}
@@ -745,6 +748,9 @@ class Explorer:
             return self.container_method(ts, pst, tgt.__self__, tgt.__name__, args)
         if isinstance(tgt, _ContainerMethod):
             return self.container_method(ts, pst, tgt.obj, tgt.name, args)
+        if isinstance(tgt, _LineIdent):
+            caller.stack.append(tgt.v)
+            return None
         # ---- python-level functions: inline
         f = self.make_call_frame(func, list(args), dict(kwargs), caller)
         if f is not None:
@@ -772,6 +778,11 @@ class Explorer:
         if cls is threading.Event:
             caller.stack.append(self.alloc_site(ts, th, lambda: prims.SimEvent(False)))
             return None
+        if cls is _mmap.mmap:
+            fobj = args[0]
+            if not isinstance(fobj, prims.SimFile):
+                raise VMError("mmap of something that is not a modelled file")
+            return self.file_op(ts, pst, th, fobj.mm, "mmap", args, kwargs)
         if cls in (list, tuple):
             return self.builtin_call(ts, pst, th, cls, args, kwargs)
         if cls in (int, str, float, bool, range, enumerate, zip):
@@ -814,8 +825,13 @@ class Explorer:
     # ------------------------------------------------------------------ heap
     def load_attr(self, ts, pst, th, obj, name):
         w = self.w
+        if isinstance(obj, SOpt) and isinstance(obj.payload, prims.SimObj):
+            pst.set_flag("attributeerror-None-has-no-attribute", obj.is_none)
+            obj = obj.payload
         if isinstance(obj, SOpt):
             raise VMError("attribute %s of an optional value" % name)
+        if is_symint(obj) and name in ("rstrip", "decode"):
+            return _LineIdent(obj)  # a line is represented by its id: decoding / stripping the newline keep the id
         if isinstance(obj, (SList, SDict)):
             return _ContainerMethod(obj, name)
         if isinstance(obj, prims.SimObj):
@@ -882,7 +898,8 @@ class Explorer:
         ci = w.cell(obj, name)
         ctor = self.in_ctor_of(ts, obj) or (bool(w.publication_functions) and
                                             isinstance(obj, (threading.Thread, _mpp.BaseProcess)) and
-                                            any(fr.code.co_name in w.publication_functions for fr in ts.frames))
+                                            any(fr.code.co_name in w.publication_functions for fr in ts.frames)) or (
+            bool(w.fork_functions) and any(fr.code.co_name in w.fork_functions for fr in ts.frames))
         if ctor:
             ci.ctor_written = True
         elif th.name not in ci.writers:
@@ -1033,6 +1050,8 @@ class Explorer:
         self.visible(ts, pst, label, prim=obj if isinstance(obj, prims.SimObj) else None)
         if isinstance(obj, prims.SimQueue):
             return self.queue_op(ts, pst, th, obj, name, args, kwargs)
+        if isinstance(obj, (prims.SimFile, prims.SimMmap)):
+            return self.file_op(ts, pst, th, obj, name, args, kwargs, announced=True)
         if isinstance(obj, prims.SimEvent):
             v = "%s.flag:b" % obj.name
             w.declare(v, "b", obj.init)
@@ -1080,6 +1099,88 @@ class Explorer:
                 raise VMError("Lock.%s not modelled" % name)
             return None
         raise VMError("primitive %r.%s not modelled" % (obj, name))
+
+    def file_op(self, ts, pst, th, obj, name, args, kwargs, announced=False):
+        """OS-level semantics of files under fork (prims.SimFile): description 0 belongs to the process that opened the file
+        first (thread 0) and is what every forked child's inherited handle refers to; open() in process p switches p's handle
+        to p's own description with position 0. seek/readline act on the description the caller's handle refers to.
+        A line is represented by its index (-1: the read did not start at the beginning of a line)."""
+        w = self.w
+        caller = ts.frames[-1]
+        me = w.thread_order.index(th.name)
+        F = obj.file if isinstance(obj, prims.SimMmap) else obj
+        if not announced:
+            self.visible(ts, pst, "%s.%s" % (obj.name, name), prim=obj)
+        offs = [int(o) for o in F.offsets]
+
+        def line_at(cur):
+            r = I(-1)
+            for i in reversed(range(len(offs))):
+                r = z3.If(cur == I(offs[i]), I(i), r)
+            return r
+
+        def next_pos(cur):
+            r = I(F.size)
+            for o in reversed(offs[1:]):
+                r = z3.If(cur < I(o), I(o), r)
+            return z3.If(cur >= I(F.size), cur, r)
+
+        if isinstance(obj, prims.SimMmap):
+            pv = "%s.pos.%d:i" % (obj.name, me)
+            w.declare(pv, "i", 0)
+            if name == "mmap":
+                pst.write(pv, "i", I(0))
+                caller.stack.append(obj)
+            elif name == "seek":
+                pst.write(pv, "i", as_bv(args[0]))
+                caller.stack.append(None)
+            elif name == "readline":
+                cur = pst.read(pv, "i")
+                pst.write(pv, "i", next_pos(cur))
+                caller.stack.append(line_at(cur))
+            elif name == "close":
+                caller.stack.append(None)
+            else:
+                raise VMError("mmap.%s not modelled" % name)
+            return None
+        dv = "%s.desc.%d:i" % (F.name, me)
+        p0 = "%s.pos.0:i" % F.name
+        pm = "%s.pos.%d:i" % (F.name, me)
+        w.declare(dv, "i", 0)
+        w.declare(p0, "i", 0)
+        w.declare(pm, "i", 0)
+        d = pst.read(dv, "i")
+        own = (d != I(0)) if me != 0 else False
+        if name == "open":
+            pst.write(dv, "i", I(me))
+            pst.write(pm, "i", I(0))
+            caller.stack.append(F)
+        elif name == "seek":
+            off = as_bv(args[0])
+            if me == 0:
+                pst.write(p0, "i", off)
+            else:
+                a0, am = pst.read(p0, "i"), pst.read(pm, "i")
+                pst.write(p0, "i", z3.If(own, a0, off))
+                pst.write(pm, "i", z3.If(own, off, am))
+            caller.stack.append(None)
+        elif name == "readline":
+            if me == 0:
+                cur = pst.read(p0, "i")
+                pst.write(p0, "i", next_pos(cur))
+            else:
+                a0, am = pst.read(p0, "i"), pst.read(pm, "i")
+                cur = z3.If(own, am, a0)
+                pst.write(p0, "i", z3.If(own, a0, next_pos(cur)))
+                pst.write(pm, "i", z3.If(own, next_pos(cur), am))
+            caller.stack.append(line_at(cur))
+        elif name == "close":
+            caller.stack.append(None)
+        elif name == "fileno":
+            caller.stack.append(F)  # only ever passed on to mmap.mmap
+        else:
+            raise VMError("file.%s not modelled" % name)
+        return None
 
     def queue_op(self, ts, pst, th, q, name, args, kwargs):
         w = self.w
@@ -1266,6 +1367,14 @@ class Explorer:
         if func is print:
             st.append(None)
             return None
+        if func is _os.getpid:
+            st.append(self.w.thread_order.index(th.name))  # one process per modelled thread of control
+            return None
+        if func is open:
+            fobj = self.w.files.get(args[0]) if args and isinstance(args[0], str) else None
+            if fobj is None:
+                raise VMError("open(%r) of a file that is not modelled" % (args[:1],))
+            return self.file_op(ts, pst, th, fobj, "open", args, kwargs)
         if func is int and len(args) == 1 and (is_symint(args[0]) or isinstance(args[0], int)):
             st.append(args[0])
             return None
@@ -1536,6 +1645,16 @@ class Explorer:
 
     def op_LOAD_ATTR(self, ts, pst, th, f, ins, st):
         obj = st[-1]
+        if hasattr(obj, "__dict__") and not isinstance(obj, (prims.SimObj, types.ModuleType, type)) and not is_z3(obj):
+            for k in type(obj).__mro__:
+                d = k.__dict__.get(ins.argval)
+                if d is not None:
+                    if isinstance(d, property) and isinstance(d.fget, types.FunctionType) and self.w.is_inline(d.fget):
+                        st.pop()
+                        if ins.arg & 1:
+                            st.append(NULL)
+                        return self.push_call(ts, pst, types.MethodType(d.fget, obj), [], {}, th)
+                    break
         v = self.load_attr(ts, pst, th, obj, ins.argval)
         st.pop()
         if ins.arg & 1:
@@ -1799,6 +1918,15 @@ class Explorer:
         if isinstance(c, list) and id(c) in self.w.reflists and isinstance(k, int):
             st.append(self.read_reflist(ts, pst, c, k))
             return None
+        if isinstance(c, (list, dict)) and is_symint(k) and c and all(type(x) is int for x in (c if isinstance(c, list) else list(c.values()) + list(c.keys()))):
+            # constant table of integers (line offsets): a chain of if-then-else instead of one path per entry
+            keys = list(range(len(c))) if isinstance(c, list) else sorted(c)
+            r = I(c[keys[-1]])
+            for j in reversed(keys[:-1]):
+                r = z3.If(k == I(j), I(c[j]), r)
+            pst.set_flag("indexerror-or-keyerror-in-constant-table", z3.Not(z3.Or([k == I(j) for j in keys])))
+            st.append(r)
+            return None
         if isinstance(c, list) and is_symint(k) and not _has_sym(c):
             alts = []
             for j in range(len(c)):
@@ -1812,6 +1940,9 @@ class Explorer:
             except Exception as e:  # noqa
                 return self.do_raise(ts, pst, th, e)
             return None
+        gi = getattr(type(c), "__getitem__", None)
+        if isinstance(gi, types.FunctionType) and self.w.is_inline(gi) and hasattr(c, "__dict__"):
+            return self.push_call(ts, pst, types.MethodType(gi, c), [k], {}, th)
         raise VMError("subscript %r[%r]" % (c, k))
 
     def op_STORE_SUBSCR(self, ts, pst, th, f, ins, st):
@@ -2195,6 +2326,11 @@ class _ContainerMethod:
         self.name = name
 
 
+class _LineIdent:
+    def __init__(self, v):
+        self.v = v
+
+
 class _PrimExit:
     """__exit__ of a primitive context manager (lock): dispatched through prim_call"""
     __name__ = "__exit__"
@@ -2273,6 +2409,8 @@ def join_shape(a, b):
         return ("O", a)
     if isinstance(a, tuple) and a[0] == "O":
         return ("O", join_shape(a[1], b[1] if (isinstance(b, tuple) and b[0] == "O") else b))
+    if isinstance(b, tuple) and b[0] == "O":
+        return ("O", join_shape(a, b[1]))
     if isinstance(a, tuple) and isinstance(b, tuple) and a[0] == b[0] == "L":
         return ("L", max(a[1], b[1]), join_shape(a[2], b[2]))
     if isinstance(a, tuple) and isinstance(b, tuple) and a[0] == b[0] == "D":
